@@ -31,6 +31,9 @@ ASSUMPTIONS = [
     'storage fault of the property\'s list; it is in the fault space all the same: such a request must be answered (the '
     'compiler\'s result, a reported fatal error or a dropped connection after which the client compiles locally), never hang '
     'and never return a wrong result (C09_internal_fault_reported); transparency proper is claimed under `calm`',
+    'for damage at an arbitrary offset of an entry (`poke`) the model is not consulted: the monitor requires the compiler\'s '
+    'own result and re-population; the one tolerated deviation is the symptom of finding C08-K1 (open, recorded under C08): '
+    'an altered stdout/stderr member NAME in the unchecksummed zip directory gives a hit without that output',
     'not modelled: distributed compilation, LRU eviction during the request (Model/Lru.v), a storage call that never '
     'returns other than the result lookup (only the lookup has a time-out in the code), process spawn failures',
 ]
@@ -259,6 +262,25 @@ def gen_flips(tier):
     return out
 
 
+def gen_pokes(tier):
+    """Overwrite 1 or 4 bytes at EVERY offset of a stored result entry (local header signature and fields, member
+    names, payload, central directory fields incl. flags / method / sizes / offsets / names, end-of-central-directory
+    record), then two fault-free repeats.  Entries are ~450 bytes; offsets wrap modulo the file length.  The model is
+    not consulted for these histories (what a byte means depends on the archive layout): the property monitor judges."""
+    out = []
+    span = 560
+    plans = [(1, 0, 1, 1), (1, 0, 4, 1), (0, 3, 1, 2)] if tier != 'thorough' else \
+            [(pm, t, wd, 1) for pm in (1, 0) for t in (0, 3) for wd in (1, 4)]
+    for ppmode, t, width, step in plans:
+        for off in range(0, span, step):
+            out.append([ppmode, [ORC_OK] * 4, [req(t), [b'poke', t, off, width], req(t), req(t)]])
+    # damage after a restart, and two places at once
+    for k in range(0, span, 7 if tier != 'thorough' else 2):
+        out.append([1, [ORC_OK] * 4, [req(1), [b'poke', 1, k, 1], [b'restart', b'rw'], req(1), req(1)]])
+        out.append([1, [ORC_OK] * 4, [req(2), [b'poke', 2, k, 1], [b'poke', 2, (k * 5 + 13) % span, 4], req(2), req(2)]])
+    return out
+
+
 def gen_first_touch(tier):
     """The cache directory is unusable exactly when a (re)started server first touches its stores, is repaired later;
     then a miss must store and the repeat must hit — for a cache that was empty, populated, read-only."""
@@ -335,6 +357,14 @@ def may_panic(orc, f):
     return orc[0] == 99 or orc[2] == 99 or b'panic' in f[:4]
 
 
+def k1_shape(t, orc, ok, res):
+    """Exactly the symptom of C08-K1: a successful answer with the right object whose stdout and/or stderr is empty."""
+    client, outs = res
+    want = direct_of(t, orc, ok)
+    return (client[0] == b'finished' and client[1] == 0 and want[0] == 0 and list(outs) == want[3]
+            and client[2] in (want[1], b'') and client[3] in (want[2], b''))
+
+
 def check_result(t, orc, r, res, where):
     """Transparency of one request's client-side result."""
     vs = []
@@ -384,6 +414,7 @@ def monitor(case, out):
     ro = False
     broken = False         # the cache directory cannot be opened
     settled = {}           # tu -> a clean successful request has populated the entry and nothing disturbed it
+    poked = {}             # tu -> its entry was damaged at an arbitrary offset and has not been rewritten since
     for i, (st, ob) in enumerate(zip(steps, out)):
         kind = st[0]
         if ob[0] != kind:
@@ -395,8 +426,15 @@ def monitor(case, out):
             t, cls, cc, ok, f = st[1], st[2], st[3], st[4], st[5]
             res, ppr, ccr, dsk = ob[1], ob[2], ob[3], ob[4]
             orc = orcs[t]
-            vs += check_result(t, orc, st, res, 'step %d' % i)
+            rv = check_result(t, orc, st, res, 'step %d' % i)
+            if rv and poked.get(t) and k1_shape(t, orc, ok, res):
+                # finding C08-K1, recorded under C08 (open): the NAME of the stdout / stderr member in the
+                # unchecksummed zip directory was altered, the member looks absent, the hit lacks that output
+                rv = []
+            vs += rv
             want = direct_of(t, orc, ok)
+            if cls == b'compile' and ccr >= 1 and res[0][0] == b'finished' and res[0][1] == 0:
+                poked[t] = False
             if cls == b'compile' and want[0] != 0 and dsk[0] > prev_good:
                 vs.append('step %d: the result of a failed compilation was stored' % i)
             clean = (cls == b'compile' and cc == b'default' and ok == 1 and f == NOF and sane(orc) and want[0] == 0
@@ -424,6 +462,10 @@ def monitor(case, out):
         elif kind == b'disk':
             settled[st[3]] = False
             prev_good = ob[1][0]
+        elif kind == b'poke':
+            settled[st[1]] = False
+            poked[st[1]] = True
+            prev_good = ob[1][0]
         elif kind == b'restart':
             ro = st[1] == b'ro'
             prev_good = ob[1][0]
@@ -445,7 +487,7 @@ def nontrivial(case, out):
             st = st[1]
         if st[0] == b'req' and (st[5] != NOF or st[4] == 0):
             return True
-        if st[0] in (b'disk', b'restart', b'restart_broken'):
+        if st[0] in (b'disk', b'restart', b'restart_broken', b'poke'):
             return True
     return False
 
@@ -505,14 +547,19 @@ def neighbours(case):
                 yield [ppmode, orcs, steps[:i] + [[st[0], st[1], st[2], cc, st[4], st[5]]] + steps[i + 1:]]
 
 
+def compare(m, i):
+    # histories with a `poke` step are judged by the monitor only (see gen_pokes)
+    return m == i or '(poke ' in i
+
+
 def legs(tier):
     def gen(rng, tier):
         if tier == 'thorough':
-            return (gen_table(tier) + gen_flips(tier) + gen_first_touch(tier) + gen_histories(rng, 20000, 16)
-                    + gen_midzero(rng, 2000))
-        return (gen_table(tier) + gen_flips(tier) + gen_first_touch(tier) + gen_histories(rng, 2500, 14)
-                + gen_midzero(rng, 150))
-    return [Leg('reqsm', gen, monitor=monitor, nontrivial=nontrivial, shrink=shrink, neighbours=neighbours, stats=stats,
+            return (gen_table(tier) + gen_flips(tier) + gen_pokes(tier) + gen_first_touch(tier)
+                    + gen_histories(rng, 20000, 16) + gen_midzero(rng, 2000))
+        return (gen_table(tier) + gen_flips(tier) + gen_pokes(tier) + gen_first_touch(tier)
+                + gen_histories(rng, 2500, 14) + gen_midzero(rng, 150))
+    return [Leg('reqsm', gen, monitor=monitor, compare=compare, nontrivial=nontrivial, shrink=shrink, neighbours=neighbours, stats=stats,
                 rule='single-request table: every reachable cache state (empty, warm, entry garbage/truncated/deleted/damaged in '
                      'place inside a member, cache directory unusable at first use and repaired, '
                      'preprocessor entry garbage/truncated/empty/deleted, read-only, restarted) x compiler outcome '
@@ -522,13 +569,15 @@ def legs(tier):
                      'each followed by two fault-free repeats; plus PRNG histories over 4 translation units mixing '
                      'requests of all classes, disk damage incl. in-place byte changes, restarts (rw/ro/with an unusable cache '
                      'directory, repaired later), zeroing and concurrent requests; plus in-place damage at every byte position of '
-                     'every member of a stored entry and the first-touch-failure histories; '
+                     'every member of a stored entry, 1- and 4-byte overwrites at EVERY offset of a stored entry (all structural regions '
+                     'of the archive; monitor only, no model comparison) and the first-touch-failure histories; '
                      'non-trivial = some fault, damage or restart occurs; distinct by case text')]
 
 
 # ---------------------------------------------------------------- end to end (real server + gcc)
 
-E2E_QUICK = ['res_flip150', 'res_flip450', 'res_flip750', 'res_flip995', 'res_flip500x4_restart', 'res_truncate', 'res_overwrite', 'res_delete', 'res_directory', 'pp_truncate', 'pp_overwrite', 'pp_empty',
+E2E_QUICK = ['res_poke_lh_sig', 'res_poke_cd_flags_encrypted', 'res_poke_cd_lho', 'res_poke_cd_method', 'res_poke_lh_name',
+             'res_poke_eocd_cdoff', 'res_flip150', 'res_flip450', 'res_flip750', 'res_flip995', 'res_flip500x4_restart', 'res_truncate', 'res_overwrite', 'res_delete', 'res_directory', 'pp_truncate', 'pp_overwrite', 'pp_empty',
              'pp_delete', 'pp_directory', 'both_truncate', 'res_overwrite_restart', 'pp_truncate_restart',
              'cache_dir_removed', 'cache_dir_is_a_file', 'tiny_size_limit', 'read_only_mode']
 
